@@ -533,11 +533,17 @@ class BuiltinMixin(object):
 
   def b_keypos(self, st, args, kwargs):
     d, k = args
-    pos = st.ghost.get(('$keypos', d.t.get_id()))
-    if pos is None:
-      st.axiom(self.dict_wf(st, d))
-      pos = st.ghost[('$keypos', d.t.get_id())]
+    pos = self.keypos_fn(st, d)
     return [(st, VInt(pos(self.to_val(st, k))))]
+
+  def b_ghost(self, st, args, kwargs):
+    name = z3.simplify(args[0].t).as_string()
+    if name not in st.ghost:
+      raise Unsupported('ghost variable %s is not set on this path' % name)
+    return [(st, st.ghost[name])]
+
+  def b_alive(self, st, args, kwargs):
+    return [(st, self.read_field(st, VRef('threading.Thread', args[0].t), 'alive'))]
 
   def b_cast(self, st, args, kwargs):
     obj, cls = args
@@ -595,6 +601,7 @@ class BuiltinMixin(object):
         txt = c.sexpr()
         if not any(n in txt for n in names):
           st.axiom(c)
+    self.lift_ghost(st, s)
     return [(st, VBool(z3.ForAll(bound, body) if universal else z3.Exists(bound, body)))]
 
   # ------------------------------------------------------------------ constructors of builtin types
@@ -1037,7 +1044,7 @@ class BuiltinMixin(object):
     if not st.exc_stack:
       return [(st, VTuple([NONE, NONE, NONE]))]
     exc = st.exc_stack[-1]
-    return [(st, VTuple([VClass(self.exc_class_of(exc)), exc, VOpaque(z3.IntVal(0), 'traceback')]))]
+    return [(st, VTuple([VClass(self.exc_class_of(exc)), exc, self.alloc(st, 'object')]))]
 
   def x_traceback_format_exc(self, st, args, kwargs):
     return [(st, VStr(fresh('tb', z3.StringSort())))]
